@@ -197,9 +197,9 @@ Theorem C01_ordered_collection_exec_constructor_related : forall log2 k fence ma
 Proof. exact oc_construct_refines. Qed.
 Print Assumptions C01_ordered_collection_exec_constructor_related.
 
-(* the table of list node sizes meets the constructor theorems' premise for every max_node_size up to 1024, both bucket policies *)
-Theorem C01_collection_size_table_ok : forall log2 max, 1 <= max <= 1024 -> sizes_okb (coll_sizes log2 max) = true.
-Proof. exact coll_sizes_ok_upto_1024. Qed.
+(* the table of list node sizes meets the constructor theorems' premise for every max_node_size up to 256, both bucket policies *)
+Theorem C01_collection_size_table_ok : forall log2 max, 1 <= max <= 256 -> sizes_okb (coll_sizes log2 max) = true.
+Proof. exact coll_sizes_ok_upto_256. Qed.
 Print Assumptions C01_collection_size_table_ok.
 
 
@@ -222,8 +222,8 @@ Theorem C01_small_collection_exec_constructor_related : forall log2 k fence max 
 Proof. exact sc_construct_refines. Qed.
 Print Assumptions C01_small_collection_exec_constructor_related.
 
-Theorem C01_small_collection_size_table_ok : forall log2 max, 1 <= max <= 1024 -> ssizes_okb (coll_sizes_me 1%N log2 max) = true.
-Proof. exact scoll_sizes_ok_upto_1024. Qed.
+Theorem C01_small_collection_size_table_ok : forall log2 max, 1 <= max <= 256 -> ssizes_okb (coll_sizes_me 1%N log2 max) = true.
+Proof. exact scoll_sizes_ok_upto_256. Qed.
 Print Assumptions C01_small_collection_size_table_ok.
 
 (* a history of the real allocator (configuration base, identity buckets, max 64, block 4096 at 65600) computed by the model:
